@@ -277,6 +277,10 @@ def seekFails (e : Env) (target : Nat) : Bool :=
   | none => false
   | some f => decide (f < target)
 
+/-- where `seek(SeekFrom::Current(..))` to `target > pos` lands -/
+def seekLand (e : Env) (pos target : Nat) : Nat :=
+  if e.clampSeek ∧ e.len < target then (if e.len < pos then pos else e.len) else target
+
 /-- `util::io_skip_exact(r, count)`: (ok?, new position) -/
 def skipExact (e : Env) (pos count : Nat) : Bool × Nat :=
   let count := count % U64                      -- the `u64` argument
@@ -286,7 +290,7 @@ def skipExact (e : Env) (pos count : Nat) : Bool × Nat :=
     let target := pos + count
     if seekFails e target then (false, pos)     -- `reader.seek(..)?`
     else
-      let actual := if e.clampSeek ∧ e.len < target then (if e.len < pos then pos else e.len) else target
+      let actual := seekLand e pos target
       if actual = satAdd64 pos count then (true, actual) else (false, actual)
 
 /-- successful reader mutations, for the tie: relative seek distance / bytes delivered -/
